@@ -14,3 +14,7 @@ def run(ctx, rep):
     from ..rules import more3
     more3.rule_work_zero(mod, rep)
     more3.rule_cursor_reset(mod, rep)
+    from ..rules import more4
+    more4.rule_setup_space(mod, rep)
+    from ..rules import more4
+    more4.rule_int_work_fill(mod, rep)
